@@ -16,6 +16,7 @@ import (
 	"verifharness/geometry"
 	"verifharness/internal/isolate"
 	"verifharness/metadata"
+	"verifharness/peerfsm"
 	"verifharness/piecestore"
 	"verifharness/sched"
 	"verifharness/trackerb"
@@ -25,6 +26,7 @@ import (
 
 var bindings = map[string]func(in []byte) any{
 	"piecestore": piecestore.Replay,
+	"peerfsm":    peerfsm.Replay,
 	"upload":     upload.Replay,
 	"c11x":       c11x.Handle,
 	"sched":      sched.Replay,
